@@ -92,7 +92,7 @@ def case(cid, rng, cfg):
     try:
         with warnings.catch_warnings():
             warnings.simplefilter("ignore")
-            mdl = Ridge2FoldCV(alphas=[a / b for a, b in alphas], alpha_type=cfg["atype"], regularization_method=cfg["method"], cv=cvarg,
+            mdl = core.mk(Ridge2FoldCV, alphas=[a / b for a, b in alphas], alpha_type=cfg["atype"], regularization_method=cfg["method"], cv=cvarg,
                                scoring=scoring, n_jobs=None if cfg["njobs"] == 1 else 2, **kw).fit(Xfit, Y if p > 1 else Y)
         c["cv"] = fq(mdl.cv_values_)
         c["best_idx"] = int(np.argmin(np.abs(np.asarray([a / b for a, b in alphas]) - mdl.alpha_))) + 1
